@@ -199,6 +199,9 @@ func parseContractFile(path, pkg string) ([]*Contract, error) {
 			}
 		case "pure":
 			cur.Pure = true
+			if rest != "" {
+				cur.Opts["pure"] = rest // `pure docs`: also a function of the documents in the heap
+			}
 		case "trusted":
 			cur.Trusted = true
 		case "locals":
